@@ -139,6 +139,18 @@ impl OneshotSender {
 //@@ subst `ArcReceiverUnsettledMap` => `Option<OrderedMap<DeliveryTag, Option<DeliveryState>>>` rule=R4
 //@@ end
 pub enum LinkRelayError { UnattachedHandle, TransferFrameToSender }
+impl SenderRelayFlowState {
+    /// Producer::produce (unit PRODUCER): applies the receiver's flow to the sender's flow state and wakes a blocked send
+    #[verifier::external_body]
+    pub fn produce(&mut self, flow: LinkFlow, output_handle: OutputHandle) -> (r: Option<LinkFlow>) { unimplemented!() }
+}
+impl ReceiverRelayFlowState {
+    /// LinkFlowState<ReceiverMarker>::on_incoming_flow (unit LINKFLOW) as called by the relay, i.e. by the SESSION task at the moment the flow frame arrives
+    #[verifier::external_body]
+    pub fn on_incoming_flow(&mut self, flow: LinkFlow, output_handle: OutputHandle, Ghost(unconsumed): Ghost<nat>) -> (r: Option<LinkFlow>)
+        requires unconsumed == 0,       // [C09.flow.in-order-with-queued-transfers] the sender's delivery-count is taken over only in wire order with its transfers: while deliveries that preceded the flow on the wire still wait in the link's queue (they are counted by recv() later), adopting the flow's delivery-count counts them twice -- the receiver then reports a delivery-count ahead of the sender's, grants credit the sender cannot use (stall) or enforces a limit the sender does not see
+    { unimplemented!() }
+}
 /// Attach: only the field send_attach_inner reads (R11)
 pub struct Attach { pub incomplete_unsettled: bool, pub rest: AttachRest }
 pub type SendAttachErrorKind = DispositionError;   // `pub(crate) type SendAttachErrorKind = IllegalLinkStateError;` (the same two variants)
@@ -196,6 +208,16 @@ impl LinkRelay<OutputHandle> {
             &&& (!settled && m0.contains_key(delivery_tag)) ==> m1 == m0.insert(delivery_tag, state)          // [C02.relay.receiver-record]
             &&& (!settled && !m0.contains_key(delivery_tag)) ==> m1 == m0
         }),
+//@@ end
+
+//@@ fn file=fe2o3-amqp/src/link/mod.rs impl=`impl LinkRelay<OutputHandle>` name=on_incoming_flow
+//@@ subst `{ use serde_amqp::Value; __E1 }` => `{ }` rule=R11
+//@@ subst `flow_state.produce((flow, output_handle.clone()))` => `flow_state.produce(flow, output_handle.clone())` rule=R9
+//@@ subst `flow_state.on_incoming_flow(flow, output_handle.clone())` => `flow_state.on_incoming_flow(flow, output_handle.clone(), Ghost(unconsumed))` rule=R9
+//@@ entry
+        let ghost unconsumed: nat = arbitrary();      // deliveries this relay has already forwarded into the link's queue which the link has not counted yet (ReceiverLink::on_complete_transfer -> consume runs in the application's recv())
+//@@ spec
+    ensures r is Ok,
 //@@ end
 
 //@@ fn file=fe2o3-amqp/src/link/mod.rs impl=`impl LinkRelay<OutputHandle>` name=on_incoming_transfer
